@@ -1201,7 +1201,25 @@ fn case_tabs(rng: &mut Rng, w: &W, out: &mut impl Write) {
     writeln!(out, "N 0 {} {} {}", cols, rows, lim_tok(gen_limit(rng, w))).unwrap();
     let nops = rng.range(6, 24);
     for _ in 0..nops {
-        match rng.weighted(&[22, 10, 10, 28, 10, 10, 10, 8]) {
+        match rng.weighted(&[22, 10, 10, 28, 10, 10, 10, 8, 7]) {
+            8 => {
+                // stops edited / width changed while the other screen shows: the stop vector belongs to the
+                // terminal, not to a screen - nothing may be re-derived from a buffer's stale width on return
+                let on = *rng.pick(&[47usize, 1047, 1049]);
+                writeln!(out, "S 0 {}", hex_encode(&format!("\u{1b}[?{}h", on))).unwrap();
+                for _ in 0..rng.range(1, 3) {
+                    match rng.below(4) {
+                        0 | 1 => {
+                            cols = *rng.pick(&widths);
+                            writeln!(out, "R 0 {} {}", cols, rows).unwrap();
+                        }
+                        2 => writeln!(out, "S 0 {}", hex_encode(&format!("\u{1b}[{}G\u{1b}[g", rng.range(1, cols + 1)))).unwrap(),
+                        _ => writeln!(out, "S 0 {}", hex_encode(*rng.pick(&["\u{1b}[3g", "\u{1b}[5W", "\u{1b}[2W", "\u{1b}H"]))).unwrap(),
+                    }
+                }
+                writeln!(out, "S 0 {}", hex_encode(&format!("\u{1b}[?{}l", *rng.pick(&[47usize, 1047, 1049])))).unwrap();
+                writeln!(out, "S 0 {}", hex_encode(&format!("\r\u{1b}[{}I", rng.range(1, 5)))).unwrap();
+            }
             7 => {
                 // tab movement from the wrap-pending position (one past the last column), where a
                 // stop in the last column lies BEFORE the cursor
